@@ -21,7 +21,7 @@ ASSUMPTIONS = ["interior cusps (two different one-sided limits) make no claim an
                "regular point: |B'(t)| > 1e-6 * size; tolerance 1e-9 on unit vectors (1e-6 for arcs, cf. C04), curvature to 1e-7 relative"]
 CONFIGS = ['scipy']
 BUDGET = {'quick': 30000, 'thorough': 500000}
-REQUIRED = ['singular:t0', 'singular:t1', 'regular', 'numpy_coords', 'kind:A', 'kind:L', 'transform:rotated', 'transform:scaled_neg',
+REQUIRED = ['singular_transform:scaled', 'singular_transform:rotated', 'singular:t0', 'singular:t1', 'regular', 'numpy_coords', 'kind:A', 'kind:L', 'transform:rotated', 'transform:scaled_neg',
             'transform:reversed', 'quadrant:0', 'quadrant:1', 'quadrant:2', 'quadrant:3', 'circular_arc']
 
 EPS = 2.0 ** -52
@@ -174,6 +174,26 @@ def check(case, ctx):
                           'unit_tangent(%d)=%r but unit_tangent one 1e-6 step inside is %r' % (e, ut, near))
                 nv = complex(ctx.lib('normal/singular', seg.normal, float(e)))
                 ctx.check(abs(nv - (-1j) * ut) <= 1e-12, 'singular/normal', 'normal != -1j*unit_tangent at the singular end')
+                # the tangent at the singular end transforms like any other tangent (the operations must keep coincident
+                # control points coincident, otherwise the end tangent of the image is rounding noise)
+                tr = case['tr']
+                tp = case['tp']
+                if tr != 'none':
+                    if tr == 'translated':
+                        other, ewant, ee = seg.translated(gen.C(tp['z']) * size), want, e
+                    elif tr == 'rotated':
+                        w = complex(math.cos(math.radians(tp['deg'])), math.sin(math.radians(tp['deg'])))
+                        other, ewant, ee = seg.rotated(tp['deg'], 0j), w * want, e
+                    elif tr == 'scaled':
+                        other, ewant, ee = seg.scaled(tp['s']), want, e
+                    elif tr == 'scaled_neg':
+                        other, ewant, ee = seg.scaled(-tp['s']), -want, e
+                    else:
+                        other, ewant, ee = seg.reversed(), -want, 1 - e
+                    ctx.count('singular_transform:' + tr)
+                    got = complex(ctx.lib('unit_tangent/singular/' + tr, other.unit_tangent, float(ee)))
+                    ctx.check(abs(got - ewant) <= 1e-6, 'singular/covariance/%s/t%d' % (tr, e),
+                              '%s: unit_tangent at the singular end of the image is %r, expected %r' % (tr, got, ewant))
         # -- covariance ------------------------------------------------------------------------------------
         tr = case['tr']
         if tr != 'none':
